@@ -69,9 +69,13 @@ func main() {
 		genMan  = flag.Bool("gen-manifest", false, "write MANIFEST.json from the rule registry")
 		list    = flag.Bool("list", false, "list properties and rules")
 		verbose = flag.Bool("v", false, "print every obligation")
+		patch   = flag.String("patch", "", "tool mode: apply this unified diff to the sources in memory (overlay), run every property's quick rules on the result in parallel and print which properties/rules report")
 	)
 	flag.Parse()
 	vdir := verifDir()
+	if *patch != "" {
+		os.Exit(patchMatrix(*patch, *repo, vdir))
+	}
 
 	if *list {
 		ids := []string{}
